@@ -106,13 +106,18 @@ def plan_case(ctx, rng, k, drv):
     fmt = rng.choice(["podGac", "podLac"]) if k >= 2 else ["podGac", "podLac"][k]
     num, den = timesgen.period(fmt)
     n = rng.choice([3, 8, 20, 40]) if fmt == "podLac" else rng.choice([3, 8, 30, 80])
-    n0 = rng.choice([1, 1, 2, 9, 300, 2000])
+    n0 = rng.choice([1, 1, 2, 9, 300, 2000, (32600 if fmt == "podLac" else 14850)])      # incl. the top of the admitted range
     nums, cur = [], n0
     for _ in range(n):
         nums.append(cur)
         cur += 1 + (rng.choice([1, 2, 5, 30]) if (rng.random() < 0.15 and k >= 2) else 0)
+    nums = [x for x in nums if x <= (32766 if fmt == "podLac" else 14998)] or [n0]
+    if len(nums) > 6 and rng.random() < 0.15 and k >= 2:
+        i = rng.randrange(1, len(nums) - 2)          # two neighbouring records stored in the wrong order
+        nums[i], nums[i + 1] = nums[i + 1], nums[i]
     start = ydm_to_ms(2000, 322, rng.randint(3600000, 80000000))
-    lats = (np.array(nums, dtype=float) / 128.0)[:, None] * np.ones((1, 51))
+    lat_base = n0 - 100          # latitude encodes (line number - lat_base) / 128 deg: exact in the 16-bit words
+    lats = ((np.array(nums, dtype=float) - lat_base) / 128.0)[:, None] * np.ones((1, 51))
     lons = np.ones((len(nums), 1)) * np.linspace(-60, 60, 51)[None, :]
     b = pod_pass(ctx, fmt, nums, start, lats, lons, rng)
     offs = timesgen.ideal_offsets(fmt, nums)
@@ -127,7 +132,7 @@ def plan_case(ctx, rng, k, drv):
         # decode the line number from the nominal time the code asks for
         us = np.asarray(missed_utcs).astype("datetime64[us]").astype(np.int64)
         line = n0 + np.rint((us - start * 1000) * den / (num * 1000.0))
-        return (np.ones((m, 1)) * np.linspace(-60, 60, 51)[None, :], (line / 128.0)[:, None] * np.ones((1, 51)))
+        return (np.ones((m, 1)) * np.linspace(-60, 60, 51)[None, :], ((line - lat_base) / 128.0)[:, None] * np.ones((1, 51)))
 
     payload = {"fmt": fmt, "nums": nums, "start": start, "profile": kind, "table_t": tu, "table_e": te, "stream": "plan"}
     try:
@@ -153,12 +158,12 @@ def plan_case(ctx, rng, k, drv):
     rate_us = 500000 if fmt == "podGac" else 166667
     shifted = [Fraction(nn) - e / Fraction(rate_us, 1000000) for nn, e in zip(nums, errs)]
     # property oracle: position = nominal trajectory at the fractional line number; time = time - error
-    want_lat = np.array([float(s) for s in shifted]) / 128.0
+    want_lat = (np.array([float(s) for s in shifted]) - lat_base) / 128.0
     dlat = np.abs(lats_o - want_lat[:, None])
     if not np.all(np.isfinite(lats_o)) or dlat.max() > 2e-6:
         i = int(np.nanargmax(np.where(np.isfinite(dlat), dlat, np.inf).max(axis=1)))
         ctx.violation("%s, lines %s.., clock error %s: line %d is placed at fractional line %.4f instead of %.4f" % (
-            fmt, nums[:4], kind, nums[i], float(lats_o[i, 25]) * 128, float(shifted[i])), payload, cls="plan-position")
+            fmt, nums[:4], kind, nums[i], float(lats_o[i, 25]) * 128 + lat_base, float(shifted[i])), payload, cls="plan-position")
     want_shift = [int(e * 1000) if e >= 0 else -int(-e * 1000) for e in errs]
     got_shift = (t_pre - t_post).tolist()
     if any(abs(a - b_) > 1 for a, b_ in zip(got_shift, want_shift)):
@@ -167,7 +172,7 @@ def plan_case(ctx, rng, k, drv):
     dec = lambda f: "%s%d.%09d" % ("-" if f < 0 else "", abs(f).numerator * 10 ** 9 // abs(f).denominator // 10 ** 9,
                                    abs(f).numerator * 10 ** 9 // abs(f).denominator % 10 ** 9)
     drv.append(("c09 plan %d %d %d %s %s" % (num, den, int(t_pre[0]), ",".join(map(str, nums)), ",".join(dec(e) for e in errs)),
-                {"missed_us": cap.get("missed_utcs"), "lat128": (lats_o[:, 25] * 128).tolist(), "shift": got_shift}, payload))
+                {"missed_us": cap.get("missed_utcs"), "lat128": (lats_o[:, 25] * 128 + lat_base).tolist(), "shift": got_shift}, payload))
     ctx.case((fmt, tuple(nums), kind, start), nontrivial=kind != "zero" or len(set(np.diff(nums))) > 1,
              branch="plan/%s/%s" % (fmt, kind))
 
